@@ -118,6 +118,16 @@ func (sp *stakePool) stake() (stake currency.Coin, err error) {
 	return
 }
 
+// acceptsRewards reports whether DistributeRewards would credit this pool at
+// all (it silently drops rewards of killed and under-staked pools).
+func (sp *stakePool) acceptsRewards() bool {
+	if sp.HasBeenKilled {
+		return false
+	}
+	staked, err := sp.stake()
+	return err == nil && staked >= sp.Settings.MinStake
+}
+
 // empty a delegate pool if possible, call update before the empty
 func (sp *stakePool) Empty(
 	sscID,
